@@ -62,9 +62,6 @@ PROFILES = {
         "stop_on_error": False,
         "wl_kwargs": 0.3,
         "split_bias": 0.35,
-        # several virtual rows of one trough column are distinct positions on the EVO and one position on the
-        # Fluent: such a distribute is not a device-independent operation (one device must refuse it)
-        "distinct_positions": "on_every_device",
     },
     # history (C11)
     "history": {
@@ -381,8 +378,7 @@ class Engine:
         dst = rng.choice(list(self.descs))
         dd = self.descs[dst]
         ids = all_well_ids(dd)
-        if dd["kind"] == "trough" and (self.device == "fluent" or self.profile.get("distinct_positions") == "on_every_device") \
-                and self.profile.get("distinct_positions"):
+        if dd["kind"] == "trough" and self.profile.get("distinct_positions"):
             seen, u = set(), []
             for w, idx in ids:
                 if idx not in seen:
@@ -391,7 +387,7 @@ class Engine:
             ids = u
         k = max(1, min(rng.choice([1, 2, 3, 5, 8, 12]), len(ids)))
         chosen = rng.sample(ids, k)
-        if self.profile.get("distinct_positions") in (None, False, "on_every_device") and rng.random() < 0.1:
+        if not self.profile.get("distinct_positions") and rng.random() < 0.1:
             chosen.append(rng.choice(chosen))  # a destination well listed twice is charged twice
             k += 1
         cs, cd = self.cur(src), self.cur(dst)
